@@ -25,6 +25,14 @@ def mon_c13(h, outs):
     for i, (j, o) in enumerate(zip(h, outs)):
         if j.get("cmd") != "req" or not isinstance(o, dict) or "results" not in o:
             continue
+        ee = o.get("_encode_error")
+        if ee:
+            # the engine answered, but the session cannot encode the answer: the client receives General Failure
+            for k in (ee.get("items") or [None]):
+                it = j["req"]["items"][k] if k is not None and k < len(j["req"]["items"]) else {"op": "?"}
+                fails.append(("c13:%s:response-unencodable:%s@%s" % (it["op"], ee["exc"], ee["site"]),
+                              "%s under KMIP %s: the engine's answer cannot be encoded (%s: %s), the session answers "
+                              "General Failure (item %s)" % (it["op"], j["req"]["version"], ee["exc"], ee["msg"][:120], str(it)[:300]), i))
         ints = list(o.get("_internal", []))
         for it, r in zip(j["req"]["items"], o["results"]):
             if r.get("reason") != 256:
